@@ -151,11 +151,11 @@ func checkC11(sc cScenario, r cResult) (string, string) {
 		if r.retT == t && r.outcome != "noresp" && !otherTerminatorAt(sc, f, i, t) {
 			return "close-error", fmt.Sprintf("Close at %d, call returned %s", t, r.outcome)
 		}
-		if r.closeT != t {
+		if r.closeT != t && sc.cerr != 2 {
 			return "close-returns", fmt.Sprintf("Close called at %d returned at %d", t, r.closeT)
 		}
 	}
-	if i := f.firstAcc; i >= 0 && sc.evs[i].sync && !f.onDeadline(f.eff[i]) {
+	if i := f.firstAcc; i >= 0 && sc.evs[i].sync && (!f.onDeadline(f.eff[i]) || sc.evs[i].hook) {
 		t := f.eff[i]
 		if !r.returned || r.retT > t {
 			return "accept-prompt", fmt.Sprintf("acceptable response at %d, call %s", t, r.canon())
@@ -177,6 +177,41 @@ func checkC11(sc cScenario, r cResult) (string, string) {
 	}
 	if r.status != "ok" {
 		return "goroutine-leak", "bubble ended with: " + r.status
+	}
+	return "", ""
+}
+
+// checkC10Timed: the clauses of C10 that one call under virtual time can show: the
+// returned datagram is one the filters and the matcher accept, and it is the first such.
+func checkC10Timed(sc cScenario, r cResult) (string, string) {
+	if r.status == "hang" {
+		return "hang", "scenario did not finish (virtual time stuck)"
+	}
+	f := analyse(sc)
+	if r.outcome == "nilnil" {
+		return "nil-nil", "SendAndRead returned (nil, nil)"
+	}
+	if r.returned && strings.HasPrefix(r.outcome, "resp") {
+		var idx int
+		if _, err := fmt.Sscanf(r.outcome, "resp%d", &idx); err != nil || idx < 0 || idx >= len(sc.evs) {
+			return "foreign-response", "SendAndRead returned " + r.outcome
+		}
+		k := sc.evs[idx].kind
+		if k != "acc" && k != "rej" {
+			return "filter", fmt.Sprintf("returned datagram #%d of class %s (malformed / not a reply / other hardware address / other transaction)", idx, k)
+		}
+		if !f.isAccept(k) {
+			return "matcher", fmt.Sprintf("returned datagram #%d, which the matcher rejects", idx)
+		}
+	}
+	if i := f.firstAcc; i >= 0 && sc.evs[i].sync && (!f.onDeadline(f.eff[i]) || sc.evs[i].hook) {
+		t := f.eff[i]
+		if !r.returned || r.retT > t {
+			return "accept-prompt", fmt.Sprintf("acceptable response at %d, call %s", t, r.canon())
+		}
+		if r.retT == t && r.outcome != fmt.Sprintf("resp%d", i) && !otherTerminatorAt(sc, f, i, t) {
+			return "not-first", fmt.Sprintf("first acceptable response is #%d at %d, call returned %s", i, t, r.outcome)
+		}
 	}
 	return "", ""
 }
@@ -270,4 +305,5 @@ func timedOracle(name string, check func(cScenario, cResult) (string, string)) f
 func init() {
 	registerOracle(&Oracle{Name: "c11", Run: cliCrashGuard("c11", timedOracle("c11", checkC11))})
 	registerOracle(&Oracle{Name: "c12", Run: cliCrashGuard("c12", timedOracle("c12", checkC12))})
+	registerOracle(&Oracle{Name: "c10t", Run: cliCrashGuard("c10t", timedOracle("c10t", checkC10Timed))})
 }
